@@ -33,11 +33,11 @@ class Plan:
 
 
 QUICK_THEORIES = {
-    "C01": ["poset", "semilattice", "pend", "diag", "diagjoin", "misc", "enumt", "inherit", "branches", "joins"],
-    "C02": ["poset", "semilattice", "pend", "diag", "misc", "enumt", "inherit", "joins"],
+    "C01": ["poset", "semilattice", "pend", "diag", "diagjoin", "misc", "enumt", "inherit", "branches", "joins", "manyvars"],
+    "C02": ["poset", "semilattice", "pend", "diag", "diagall", "eqchain", "misc", "enumt", "inherit", "joins"],
     "C03": ["poset", "pend", "diag", "diagjoin", "misc", "inherit", "trans_refl", "joins"],
-    "C04": ["poset", "semilattice", "diag", "diagjoin", "misc", "enumt", "inherit", "joins"],
-    "C05": ["poset", "semilattice", "diag", "misc", "enumt", "matches"],
+    "C04": ["poset", "semilattice", "diag", "diagjoin", "diagall", "backidx", "misc", "enumt", "inherit", "joins"],
+    "C05": ["poset", "semilattice", "diag", "backidx", "misc", "enumt", "matches"],
     "C06": ["poset", "diag", "trans_refl", "branches", "logic"],
     "C07": ["poset", "semilattice", "pend", "misc", "inherit"],
     "C15": ["enumt", "matches", "matches_rel"],
